@@ -12,9 +12,11 @@ import ast
 
 from ..core import rule, AnalysisError
 from ..engine import cfg as cfgmod, flow
+from ..engine import pattern as P
 from ..engine.facts import dotted, const, src, walk_func, enclosing_stmt, ancestors
 from . import skeletons as sk
 from .common import calls, stmt_nodes, contains
+from .common import raise_names as common_raise_names
 
 
 @rule("C04.reserved-at-render", min_instances=5)
@@ -22,8 +24,7 @@ def reserved_at_render(ctx):
     """every render entry point checks the reserved names (Context._set_with_template) before any template code runs"""
     db = ctx.db
     sw = db.func("runtime.Context._set_with_template")
-    t = src(sw)
-    ctx.check("t.reserved_names.intersection(self._data)" in t and "NameConflictError" in t, "check.shape", db.where(sw), "_set_with_template does not intersect the template's reserved names with the context data and raise NameConflictError", "reserved ∩ data -> NameConflictError")
+    ctx.check(P.has(sw, "$t.reserved_names.intersection(self._data)") and any(n.endswith("NameConflictError") for n, _ in common_raise_names(sw)), "check.shape", db.where(sw), "_set_with_template does not intersect the template's reserved names with the context data and raise NameConflictError", "reserved ∩ data -> NameConflictError")
     ifs = [i for i in walk_func(sw) if isinstance(i, ast.If)]
     ctx.check(bool(ifs) and flow.always_raises(ifs[0].body), "check.raises", db.where(sw), "a reserved name in the data does not raise", "raises")
     rn = db.func("runtime._render")
@@ -36,7 +37,7 @@ def reserved_at_render(ctx):
     ctx.check(bool(cx) and any(k.arg is None and src(k.value) == "data" for k in cx[0].keywords), "_render.data", db.where(rn), "the context is not built from the data passed to render()", "Context(buf, **data)")
     rc = db.func("template.Template.render_context")
     ifs = [i for i in rc.body if isinstance(i, ast.If)]
-    ok = bool(ifs) and "_with_template" in src(ifs[0].test) and "is None" in src(ifs[0].test) and any("context._set_with_template(self)" in src(s) for s in ifs[0].body)
+    ok = P.has(rc, "if getattr($c, '_with_template', None) is None:\n    $c._set_with_template(self)\n    ...") or P.has(rc, "if $c._with_template is None:\n    $c._set_with_template(self)\n    ...")
     ctx.check(ok, "render_context.guard", db.where(rc), "render_context does not check a fresh context against the reserved names", "checks a context not yet bound to a template")
     for m in ("render", "render_unicode"):
         fn = db.func("template.Template." + m)
@@ -57,18 +58,18 @@ def reserved_at_compile(ctx):
     g = cfgmod.function_cfg(init)
     chk = [s for s in init.body if isinstance(s, ast.Assign) and "reserved_names.intersection" in src(s.value)]
     ctx.require(chk, "_Identifiers.__init__: reserved-name test not found")
-    ctx.check("self.compiler.reserved_names.intersection(self.locally_declared)" in src(chk[0].value).replace("\n", ""), "test", db.where(chk[0]), "reserved names are not intersected with the locally declared names: %s" % src(chk[0].value), "reserved ∩ locally_declared")
+    ctx.check(P.has(chk[0], "self.compiler.reserved_names.intersection(self.locally_declared)"), "test", db.where(chk[0]), "reserved names are not intersected with the locally declared names: %s" % src(chk[0].value), "reserved ∩ locally_declared")
     ifs = [i for i in init.body if isinstance(i, ast.If) and src(i.test) == src(chk[0].targets[0])]
     ctx.check(bool(ifs) and flow.always_raises(ifs[0].body) and "NameConflictError" in src(ifs[0]), "raises", db.where(ifs[0]) if ifs else db.where(init), "a reserved name assigned in the template does not raise NameConflictError", "raises NameConflictError")
     good, path = g.must_pass(g.entry, g.nodes_of(chk[0]), exits=[g.exit], kinds=("n",))
     ctx.check(good, "on-every-path", db.where(chk[0]), "a path through _Identifiers.__init__ skips the reserved-name test (%s)" % g.fmt_path(path), "on every normal path")
-    visit = [s for s in walk_func(init) if isinstance(s, ast.Expr) and "node.accept_visitor(self)" in src(s)]
+    visit = [n_ for n_, _ in P.find(init, "$n.accept_visitor(self)")]
     ctx.check(bool(visit) and visit[0].lineno < chk[0].lineno, "after-scan", db.where(chk[0]), "the test runs before the node was scanned", "after the node's identifiers were collected")
     cm = db.func("template._compile")
     kw = {k.arg: src(k.value) for c in calls(cm, "codegen.compile") for k in c.keywords}
     ctx.check(kw.get("reserved_names") == "template.reserved_names", "threaded", db.where(cm), "codegen.compile gets reserved_names=%s" % kw.get("reserved_names"), "Template.reserved_names threaded to the compiler")
     cd = db.func("codegen._Identifiers.check_declared")
-    ctx.check("self.locally_declared.add(ident)" in src(cd) and "node.declared_identifiers()" in src(cd), "declared-collected", db.where(cd), "declared identifiers of code nodes are not recorded as locally declared", "assignments recorded in locally_declared")
+    ctx.check(P.has(cd, "for $i in $n.declared_identifiers():\n    self.locally_declared.add($i)"), "declared-collected", db.where(cd), "declared identifiers of code nodes are not recorded as locally declared", "assignments recorded in locally_declared")
 
 
 @rule("C04.context-isolation", min_instances=8)
@@ -134,8 +135,7 @@ def context_isolation(ctx):
         ctx.check(ok, key, db.where(node), "%s mutates %s, which is not a copy made in this function: context data shared with other scopes / the caller of render is altered" % (q, tgt), "mutates a private copy")
     ctx.require(n >= 8, "expected >=8 mutations of ._data in runtime.py, found %d" % n)
     lc = db.func("runtime.Context._locals")
-    t = src(lc)
-    ctx.check("if not d:" in t and "c = self._copy()" in t and "c._data.update(d)" in t, "_locals", db.where(lc), "_locals does not update a copy", "update on a copy (self when nothing to add)")
+    ctx.check(P.has(lc, "$c = self._copy()\n$c._data.update($d)\nreturn $c"), "_locals", db.where(lc), "_locals does not update a copy", "update on a copy (self when nothing to add)")
 
 
 @rule("C04.lookup-siblings", min_instances=8)
@@ -143,31 +143,27 @@ def lookup_siblings(ctx):
     """Context.get and Context.__getitem__ consult the data first and builtins second; the copies of the 'undeclared' filter in _Identifiers agree"""
     db = ctx.db
     gi = db.func("runtime.Context.__getitem__")
-    t = src(gi)
-    ctx.check("if key in self._data:" in t and "return self._data[key]" in t and "return builtins.__dict__[key]" in t, "__getitem__", db.where(gi), "context[key] does not look in the data first and builtins second", "data, then builtins (KeyError otherwise)")
+    ctx.check(P.has(gi, "if $k in self._data:\n    return self._data[$k]\nelse:\n    return builtins.__dict__[$k]") or P.has(gi, "if $k in self._data:\n    return self._data[$k]\nreturn builtins.__dict__[$k]"), "__getitem__", db.where(gi), "context[key] does not look in the data first and builtins second", "data, then builtins (KeyError otherwise)")
     ge = db.func("runtime.Context.get")
     r = [x for x in walk_func(ge) if isinstance(x, ast.Return)]
-    ctx.check(bool(r) and src(r[0].value) == "self._data.get(key, builtins.__dict__.get(key, default))", "get", db.where(ge), "context.get is %s" % (src(r[0].value) if r else None), "data, then builtins, then default")
+    ctx.check(P.has(ge, "return self._data.get($k, builtins.__dict__.get($k, $d))"), "get", db.where(ge), "context.get is %s" % (src(r[0].value) if r else None), "data, then builtins, then default")
     ks = db.func("runtime.Context.keys")
-    ctx.check("self._data.keys()" in src(ks), "keys", db.where(ks), "keys() does not list the data", "keys of the data")
+    ctx.check(P.has(ks, "self._data.keys()") or P.has(ks, "list(self._data)"), "keys", db.where(ks), "keys() does not list the data", "keys of the data")
     # the undeclared filter
     cls = db.cls("codegen._Identifiers")
     copies = []
     for n in ast.walk(cls):
-        if isinstance(n, ast.If) and "not in self.declared.union" in src(n.test):
+        if isinstance(n, ast.If) and P.has(n.test, "self.declared.union($_)"):
             copies.append(n)
     ctx.require(len(copies) >= 6, "expected >=6 copies of the undeclared filter, found %d" % len(copies))
-    ref = "ident != 'context' and ident not in self.declared.union(self.locally_declared)"
+    good = {id(n_) for n_, _ in P.find(cls, "if $i != 'context' and $i not in self.declared.union(self.locally_declared):\n    self.undeclared.add($i)")}
     for c in copies:
         f = getattr(c, "_func", None)
-        t = src(c.test).replace("\n", " ")
-        body_ok = len(c.body) == 1 and src(c.body[0]) == "self.undeclared.add(ident)"
-        ctx.check(t == ref and body_ok, "filter@%s:%d" % (f.name if f else "?", [x for x in copies if getattr(x, '_func', None) is f].index(c)), db.where(c), "copy of the undeclared filter differs from its siblings: `%s` -> %s" % (t, src(c.body[0])), "agrees")
+        ctx.check(id(c) in good, "filter@%s:%d" % (f.name if f else "?", [x for x in copies if getattr(x, '_func', None) is f].index(c)), db.where(c), "copy of the undeclared filter differs from its siblings: `%s` -> %s" % (src(c.test), src(c.body[0])), "agrees")
     # nested scopes see the parent's declarations
     init = db.func("codegen._Identifiers.__init__")
-    t = src(init)
-    for frag, what in (("set(parent.declared)", "parent declared"), ("parent.closuredefs.values()", "closure defs"), ("union(parent.locally_declared)", "parent locals"), ("union(parent.argument_declared)", "parent arguments"), ("self.declared.union(parent.undeclared)", "names the parent fetched (nested)")):
-        ctx.check(frag in t, "inherits:" + what, db.where(init), "a nested scope no longer inherits %s" % what, what)
+    for pat, what in (("set($p.declared)", "parent declared"), ("$p.closuredefs.values()", "closure defs"), ("$x.union($p.locally_declared)", "parent locals"), ("$x.union($p.argument_declared)", "parent arguments"), ("self.declared.union($p.undeclared)", "names the parent fetched (nested)")):
+        ctx.check(P.has(init, pat), "inherits:" + what, db.where(init), "a nested scope no longer inherits %s" % what, what)
 
 
 def _all_lines(events):
